@@ -188,7 +188,7 @@ class Ctx(object):
                 outcomes.update(o)
                 keys.update((part, x) for x in k)
                 for idx, case, detail in v:
-                    if len(self.violations) - nviol_before < 400:
+                    if len(self.violations) - nviol_before < int(os.environ.get('VERIF_MAXVIOL', '400')):
                         self.violations.append((part, idx, case, detail))
                 if len(samples) < 3:
                     samples.extend(s[:3 - len(samples)])
